@@ -172,7 +172,11 @@ class Cache:
         else:
             tmpl_kw = self.template.cache_args.copy()
             tmpl_kw.update(kw)
-            self._def_regions[defname] = tmpl_kw
+            if context is not None:
+                # only the section itself knows its cache_* arguments;
+                # invalidate_def() etc. called before the first render
+                # must not fix them for good
+                self._def_regions[defname] = tmpl_kw
         if context and self.impl.pass_context:
             tmpl_kw = tmpl_kw.copy()
             tmpl_kw.setdefault("context", context)
